@@ -806,9 +806,15 @@ def inline_stmts(callee, call, recv=None):
     ren = {}
     pre = []
     if skip:
-        if not isinstance(recv, ast.Name):
+        if isinstance(recv, ast.Name):
+            ren[callee.args.args[0].arg] = recv.id
+        elif _pure(recv):
+            # a receiver reached through a pure attribute chain (`ode.jac.pattern()`): bound to a fresh local first
+            fresh = f"_inl{k}_{callee.args.args[0].arg}"
+            ren[callee.args.args[0].arg] = fresh
+            pre.append(ast.Assign(targets=[ast.Name(id=fresh, ctx=ast.Store())], value=copy.deepcopy(recv)))
+        else:
             return None
-        ren[callee.args.args[0].arg] = recv.id
     body = copy.deepcopy(_callee_body(callee))
     # a parameter that the callee only edits IN PLACE (p[i] = .., p.append(..)) is the caller's object under another name: it is
     # renamed to the argument, so that the edits are seen on the caller's variable; only a parameter the callee re-binds needs a
@@ -1133,9 +1139,14 @@ def _renamed_body(callee, call, recv=None):
     k = next(_counter)
     ren, pre = {}, []
     if skip:
-        if not isinstance(recv, ast.Name):
+        if isinstance(recv, ast.Name):
+            ren[callee.args.args[0].arg] = recv.id
+        elif _pure(recv):
+            fresh = f"_inl{k}_{callee.args.args[0].arg}"
+            ren[callee.args.args[0].arg] = fresh
+            pre.append(ast.Assign(targets=[ast.Name(id=fresh, ctx=ast.Store())], value=copy.deepcopy(recv)))
+        else:
             return None
-        ren[callee.args.args[0].arg] = recv.id
     body = copy.deepcopy(_callee_body(callee))
     stored = {n.id for b in body for n in ast.walk(b) if isinstance(n, ast.Name) and isinstance(n.ctx, (ast.Store, ast.Del))}
     for p, e in given.items():
